@@ -3,16 +3,20 @@
 import json, os, re
 S = "/verif/seeded"
 rows = []
+SUM = json.load(open(os.path.join(S, "summaries.json")))
 for sid in sorted(os.listdir(S)):
     mp = os.path.join(S, sid, "meta.json")
     if not os.path.exists(mp):
         continue
     m = json.load(open(mp))
-    what = re.sub(r"\s+", " ", m.get("summary") or m.get("needs_to_manifest", ""))[:150]
+    what = SUM.get(sid) or re.sub(r"\s+", " ", m.get("summary") or m.get("needs_to_manifest", ""))[:150]
     if m["status"] != "effective":
         rows.append("| %s | %s | – | neutralised by %s |" % (sid, what, m.get("neutralised_by", "?")[:110]))
         continue
     res = m.get("check_results", {})
+    if not res:
+        rows.append("| %s | %s | not run | – |" % (sid, what))
+        continue
     how = []
     for p, r in res.items():
         if r["exit"] == 1:
@@ -22,6 +26,11 @@ for sid in sorted(os.listdir(S)):
                 how.append("%s: solver counterexample replayed natively" % p)
             else:
                 how.append("%s: native failing input (%s)" % (p, (r["native_classes"] or ["?"])[0].split("_")[0][:50]))
+    if not m.get("caught") and any(r["exit"] not in (0, 1) for r in res.values()):
+        how.append("check exit %s (undecided / out of reach)" % sorted({r["exit"] for r in res.values()}))
+    if not m.get("caught") and m.get("disputed"):
+        rows.append("| %s | %s | not reported | accepted alternative - see the note below the table |" % (sid, what))
+        continue
     rows.append("| %s | %s | %s | %s |" % (sid, what, "caught" if m.get("caught") else "**missed**", "; ".join(how) or "–"))
 print("| seed | change (from its notes) | result | reported through |\n|---|---|---|---|")
 print("\n".join(rows))
